@@ -32,10 +32,12 @@ const (
 	opJoin
 	opDial
 	opRand
+	opOnce
+	opWGWait
 )
 
 var opNames = [...]string{"none", "start", "yield", "lock", "rlock", "unlock", "send", "recv", "select", "close", "atomic",
-	"sleep", "read", "write", "netclose", "choose", "cancel", "newctx", "join", "dial", "rand"}
+	"sleep", "read", "write", "netclose", "choose", "cancel", "newctx", "join", "dial", "rand", "once", "wgwait"}
 
 func (k opKind) String() string { return opNames[k] }
 
@@ -78,6 +80,8 @@ const (
 	noteSpawn
 	noteTryLocked
 	noteTryRLocked
+	noteOnceDone
+	noteWGAdd
 )
 
 type note struct {
@@ -85,6 +89,7 @@ type note struct {
 	obj   uintptr
 	keep  interface{}
 	child *Task
+	n     int
 }
 
 // Task is one goroutine under the simulator's control.
@@ -411,6 +416,11 @@ func (s *Sim) grantable(t *Task) bool {
 		return s.now >= t.wakeAt
 	case opRead:
 		return s.Net.readReady(t)
+	case opOnce:
+		os := s.onceOf(r.obj)
+		return os.done || os.running == nil || os.running == t
+	case opWGWait:
+		return s.wgs[r.obj] <= 0
 	case opJoin:
 		for _, c := range r.join {
 			if c.state != stDone && c.state != stCrashed {
@@ -455,6 +465,15 @@ func (s *Sim) grant(t *Task) string {
 			return fmt.Sprintf("case %d (send) of %v", t.resp.idx, ready)
 		}
 		return fmt.Sprintf("case %d of %v", t.resp.idx, ready)
+	case opOnce:
+		os := s.onceOf(r.obj)
+		if os.done || os.running == t {
+			t.resp.idx = 0 // already done (or a recursive call, which the real Once would deadlock on): do not run f
+			return "done"
+		}
+		os.running = t
+		t.resp.idx = 1
+		return "run"
 	case opChoose:
 		t.resp.idx = s.choose(r.n, nil)
 		return fmt.Sprintf("%d/%d", t.resp.idx, r.n)
@@ -499,6 +518,11 @@ func (s *Sim) applyNote(t *Task, n *note) {
 	case noteTryRLocked:
 		ls := s.lockOf(n.obj, n.keep)
 		ls.readers++
+	case noteOnceDone:
+		os := s.onceOf(n.obj)
+		os.done, os.running = true, nil
+	case noteWGAdd:
+		s.wgs[n.obj] += n.n
 	case noteClosed:
 		s.closed[n.obj] = n.keep
 	case noteSpawn:
@@ -508,6 +532,20 @@ func (s *Sim) applyNote(t *Task, n *note) {
 		c.state = stWaiting
 		c.req = request{kind: opStart}
 	}
+}
+
+type onceState struct {
+	done    bool
+	running *Task
+}
+
+func (s *Sim) onceOf(id uintptr) *onceState {
+	os := s.onces[id]
+	if os == nil {
+		os = &onceState{}
+		s.onces[id] = os
+	}
+	return os
 }
 
 type lockState struct {
